@@ -739,6 +739,62 @@ def _r6_shape(L, repo):
                   ["self.trx_list.find_trx(remote_addr, base_port)"], parent_def, line=c.lineno)
 
 
+def _r9_fold(L, repo, run_):
+    """Application.run folded for two rounds of its main loop with three registered transceivers (dict-shaped
+    stand-ins carrying their two sockets), select() as a recording oracle that reports a chosen ready set in the first
+    round and stops the loop in the second, and the two receive entry points as recording oracles: the set waited
+    on is exactly the six sockets, and exactly the transceivers whose socket was reported ready are served, DATA by
+    recv_data_msg and CTRL by ctrl_if.handle_rx.  -> False when the code leaves the evaluator's vocabulary"""
+    from consteval import Ev, Unknown, Raised
+    FF = rel("fake_trx")
+    ci = repo.need_class("fake_trx", "Application")
+    trxs = [{"name": "T%d" % i, "ctrl_if": {"sock": "C%d" % i, "owner": "T%d" % i}, "data_if": {"sock": "D%d" % i, "owner": "T%d" % i}} for i in (1, 2, 3)]
+    recv_sites = {}
+    for c in calls_in(run_):
+        if isinstance(c.func, ast.Attribute) and c.func.attr in ("recv_data_msg", "handle_rx"):
+            recv_sites[ast.unparse(c.func)] = (c.func.attr, c.func.value)
+    if not recv_sites:
+        return False
+    rows = []
+    for ready in (["D1", "C3"], ["C1", "D1", "C2", "D2", "C3", "D3"], ["C2"], []):
+        waited, served, rounds = [], [], [0]
+        e = Ev(repo, ci.mod, env={"self.trx_list.trx_list": trxs, "self.argv.sched_rr_prio": None}, self_cls=ci)
+        e.ignore_calls = ("log.", "logging.")
+
+        def sel(a, ready=ready, waited=waited, rounds=rounds):
+            rounds[0] += 1
+            if rounds[0] > 1:
+                raise Raised("<stop>")
+            waited.append(list(a[0]) if a else None)
+            return (list(ready), [], [])
+        hooks = {"select.select": sel, "select": sel}
+        for txt, (kind, recv) in recv_sites.items():
+            def h(a, kind=kind, recv=recv, served=served):
+                o = e.ev(recv)
+                if kind == "recv_data_msg":
+                    served.append(("data", o.get("name") if isinstance(o, dict) else repr(o)))
+                else:
+                    served.append(("ctrl", o.get("owner") if isinstance(o, dict) else repr(o)))
+                return None
+            hooks[txt] = h
+        e.hooks = hooks
+        try:
+            e.run_block(run_.body)
+            return False            # the loop ended by itself: not the main loop we model
+        except Raised as ex:
+            if ex.cls != "<stop>":
+                return False
+        except Unknown:
+            return False
+        want_served = sorted(("data" if s_[0] == "D" else "ctrl", "T" + s_[1]) for s_ in ready)
+        rows.append((ready, (sorted(waited[0]) if waited and waited[0] is not None else None, sorted(served)),
+                     (["C1", "C2", "C3", "D1", "D2", "D3"], want_served)))
+    for ready, got, want in rows:
+        L.require("C12.R9", FF, "Application.run", "main loop with three transceivers, select() reporting %s ready: sockets waited on, transceivers served" % (ready or "nothing"),
+                  want, got, line=run_.lineno)
+    return True
+
+
 def r9_served(L, repo):
     """R9 (every transceiver listens on its control / data ports): the main loop waits on the CTRL and DATA socket of EVERY
     registered transceiver.  The socket set handed to select() is either built in run() by walking the registration
@@ -748,6 +804,15 @@ def r9_served(L, repo):
     ci, run_ = repo.need_method("fake_trx", "Application", "run")
     fn = "Application.run"
     L.fn(FF, fn)
+    if _r9_fold(L, repo, run_):
+        L.structural("C12.R9 shape of Application.run (socket set, dispatch loop)", _r9_shape, L, repo, run_, ci)
+        return
+    _r9_shape(L, repo, run_, ci)
+
+
+def _r9_shape(L, repo, run_, ci):
+    FF = rel("fake_trx")
+    fn = "Application.run"
     sel = [c for c in calls_in(run_) if canon(c.func) in ("select.select", "select")]
     L.require("C12.R9", FF, fn, "one select() call in the main loop", 1, len(sel))
     if len(sel) != 1 or not sel[0].args:
